@@ -604,7 +604,6 @@ func sendsErrClosed(s *ssa.Send, g *ssa.Global) bool {
 	return false
 }
 
-
 // readerErrorsAreFatal: every return of receive that is reached before a call
 // was claimed from the sent table yields a ServerError (shared by C03.R6 and C18.R6).
 func readerErrorsAreFatal(c *kit.Ctx, recv *ssa.Function) {
